@@ -85,6 +85,46 @@ Definition alias_seq : list step :=
 Lemma alias_wf : wf_seq model_dirs alias_seq = true.
 Proof. vm_compute. reflexivity. Qed.
 
+(* sessions of the shipped library: import, then any number of rc(schema=v) with ANY strings v *)
+Lemma shipped_schema_wf : forallb (fun b => wf_seq model_dirs (snd b)) schema_seqs = true.
+Proof. vm_compute. reflexivity. Qed.
+
+Lemma shipped_session_wf (vs : list string) :
+  wf_seq model_dirs (session_seq schema_seqs import_seq vs) = true.
+Proof. apply session_wf; [exact shipped_wf|exact shipped_schema_wf]. Qed.
+
+Lemma shipped_session_ok (value content : Type) (enc : value -> content) (dec : content -> option value)
+      (conv_of scorer_of dvt_of : string -> value) :
+  (forall v, dec (enc v) = Some v) ->
+  forall (vs : list string) (s : cstate content),
+    sane dec conv_of dvt_of s ->
+    exists s' ev,
+      import_run enc dec conv_of scorer_of dvt_of model_dirs (session_seq schema_seqs import_seq vs) s
+      = Ok (s', ev, map (ref_val conv_of scorer_of dvt_of model_dirs) (session_seq schema_seqs import_seq vs))
+      /\ clean dec conv_of dvt_of (session_seq schema_seqs import_seq vs) s'
+      /\ sane dec conv_of dvt_of s'
+      /\ exists ev2,
+           import_run enc dec conv_of scorer_of dvt_of model_dirs (session_seq schema_seqs import_seq vs) s'
+           = Ok (s', ev2, map (ref_val conv_of scorer_of dvt_of model_dirs) (session_seq schema_seqs import_seq vs))
+           /\ existsb is_compile ev2 = false.
+Proof.
+  intros RT vs s S. pose proof (shipped_session_wf vs) as W.
+  destruct (@import_total value content enc dec conv_of scorer_of dvt_of RT model_dirs _ s S W) as [s' [ev [vals E]]].
+  destruct (@import_value_independent value content enc dec conv_of scorer_of dvt_of RT model_dirs _ s s' ev vals S W E)
+    as [-> _].
+  destruct (@import_repairs value content enc dec conv_of scorer_of dvt_of RT model_dirs _ s s' ev _ S W E)
+    as [C [_ [_ S']]].
+  destruct (@second_start_clean value content enc dec conv_of scorer_of dvt_of RT model_dirs _ s s' ev _ S W E)
+    as [ev2 [E2 Q]].
+  exists s', ev. split; [exact E|]. split; [exact C|]. split; [exact S'|]. now exists ev2.
+Qed.
+
+Lemma schema_switch_examples :
+  schema_seq schema_seqs "asjp" <> [] /\ schema_seq schema_seqs "ipa" <> []
+  /\ schema_seq schema_seqs "el" = schema_seq schema_seqs "evolaemp"
+  /\ schema_seq schema_seqs "no such schema" = [].
+Proof. vm_compute. repeat split; discriminate. Qed.
+
 Lemma scorer_bin_guard_needed :
   exists (D : dirs) (s : cstate xcontent),
     sane xdec xconv xdvt s /\
@@ -152,6 +192,16 @@ Lemma cleanb_spec (seq : list step) (dir : bool) (fl : list (string * xcontent))
 Proof.
   unfold cleanb, clean. rewrite forallb_forall, Forall_forall.
   split; intros H st I; specialize (H st I); unfold step_valid in *; now apply xvalid_spec.
+Qed.
+
+Lemma rebuild_onlyb_spec (dir : bool) (fl : list (string * xcontent)) (o : start_obs) :
+  rebuild_onlyb dir fl o = true <->
+  forall st, In st (rebuilds (so_events o)) -> ~ step_valid xdec xconv xdvt (state_of dir fl) st.
+Proof.
+  unfold rebuild_onlyb. rewrite forallb_forall. split; intros H st I; specialize (H st I).
+  - rewrite negb_true_iff in H. intros V. apply xvalid_spec in V. unfold validb in H. rewrite V in H. discriminate.
+  - rewrite negb_true_iff. unfold validb. destruct (option_eqb xcontent_eqb _ _) eqn:V; [|reflexivity].
+    exfalso. apply H. now apply xvalid_spec.
 Qed.
 
 Lemma bool_eqb_spec a b : Bool.eqb a b = true <-> a = b.
